@@ -29,6 +29,7 @@ EXPLANATION = (
   ' (DEP-relative) the begin of a timestamp span is the timestamp minus the sum of the begins of all its ancestors (begins are parent-relative), so nested timestamps stay correct;'
   ' (FIN-position) for every position, position alignment, size and writing direction of a grid the region stays inside the root container along the positioned axis (origin >= 0, origin + extent <= 100);'
   ' (PAIR-level) only the start-tag handler moves the insertion point down a level (one known finding: the timestamp handler does too, so an end tag after a timestamp closes the wrong span);'
+  ' (LINT-k) no instance field declared with a numeric type is tested by truthiness (the number 0 would count as `not set`);'
 )
 RULE_TEXT = "per call site / function / enum / printed sample"
 UNDECIDED = ["cue-setting geometry (line numbers <= 0, position with size)", "tag scoping", "region sharing for equal settings"]
@@ -520,4 +521,5 @@ def run(ctx):
   check_timestamp_base(ctx)
   check_position_box(ctx)
   check_level_owners(ctx)
+  common.check_numeric_fields(ctx, ["ttconv.vtt.reader", "ttconv.vtt.tokenizer", "ttconv.vtt.cue"])
   common.check_history_independence(ctx, ["ttconv.vtt.reader", "ttconv.vtt.tokenizer", "ttconv.utils"])
